@@ -42,7 +42,7 @@ func init() {
 			"the wall clock only moves forward inside a bubble; TLS is not simulated",
 			"the attacker tries MD5/hex/base64 of the counter values within +-64 of identifiers disclosed to it",
 		},
-		RequiredProbes: []string{"c11.allowed", "c11.denied", "c11.after-edit", "c11.held-session-after-edit", "c11.entry.wsp-play.granted", "c11.entry.wsp-play.refused", "c11.entry.ws-flv.granted", "c11.entry.ws-flv.refused", "c11.entry.hls-segment.granted", "c11.entry.rtsp-publish.granted", "c11.entry.rtsp-publish.refused"},
+		RequiredProbes: []string{"c11.allowed", "c11.denied", "c11.after-edit", "c11.held-session-after-edit", "c11.entry.wsp-play.granted", "c11.entry.wsp-play.refused", "c11.entry.ws-flv.granted", "c11.entry.ws-flv.refused", "c11.entry.hls-segment.granted", "c11.entry.rtsp-publish.granted", "c11.entry.rtsp-publish.refused", "c11.wsp-foreign-channel-tried"},
 	})
 }
 
@@ -357,7 +357,7 @@ func buildC11(tier string) sim.Scenario {
 			user := names[tp.Choose(len(names))]
 			u := users[user]
 			path := paths[tp.Choose(len(paths))]
-			kind := tp.Choose(11)
+			kind := tp.Choose(12)
 			// users whose password or existence changed need a fresh login; the old token keeps naming the user
 			tok := tokens[user][0]
 			switch kind {
@@ -566,6 +566,81 @@ func buildC11(tier string) sim.Scenario {
 					cl.close()
 				}
 				verdict("wsp-play", user, "pull", path, got, detail)
+				w.Sleep(time.Second)
+			case 11: // WSP data channel joined to somebody else's control channel (channel ids are disclosed by INIT and sequential)
+				// victim: somebody who may pull `path`; attacker: `user`, if the rights as last saved do not cover `path` but cover another stream
+				victim := ""
+				for _, n := range names {
+					if n != user && allowed(n, "pull", path) {
+						victim = n
+						break
+					}
+				}
+				other := ""
+				for _, p := range paths {
+					if p != path && allowed(user, "pull", p) {
+						other = p
+						break
+					}
+				}
+				if victim == "" || other == "" || allowed(user, "pull", path) || !u.exists {
+					break
+				}
+				vcl, err := sw.wspConnect(fmt.Sprintf("victim%d", q), path+"?token="+tokens[victim][0])
+				if err != nil {
+					break // the victim's own access is judged by case 10
+				}
+				vbase := "rtsp://10.9.0.1:554" + path
+				okv := false
+				if m, err := vcl.do("DESCRIBE", vbase, nil, ""); err == nil && m.Status == 200 {
+					if m, err = vcl.do("SETUP", vbase+"/streamid=0", map[string]string{"Transport": "RTP/AVP/TCP;unicast;interleaved=0-1"}, ""); err == nil && m.Status == 200 {
+						if m, err = vcl.do("PLAY", vbase, nil, ""); err == nil && m.Status == 200 {
+							okv = true
+						}
+					}
+				}
+				if !okv {
+					vcl.close()
+					break
+				}
+				// the attacker learns the current channel counter from an INIT of its own on a stream it may watch
+				actl, _, err := sw.wsDial(fmt.Sprintf("attctl%d", q), "/streams"+other+"?token="+tok, "control", nil)
+				if err != nil {
+					vcl.close()
+					break
+				}
+				actl.WriteMessage(websocket.TextMessage, []byte("WSP/1.1 INIT\r\nproto: rtsp\r\nseq: 1\r\n\r\n"))
+				own := uint64(0)
+				if _, b, err := actl.ReadMessage(); err == nil {
+					for _, l := range strings.Split(string(b), "\r\n") {
+						if strings.HasPrefix(l, "channel: ") {
+							fmt.Sscanf(strings.TrimPrefix(l, "channel: "), "%d", &own)
+						}
+					}
+				}
+				got := false
+				detail := "no channel id learnt"
+				for guess := own - 1; own > 0 && guess >= own-3 && !got; guess-- {
+					adata, _, err := sw.wsDial(fmt.Sprintf("attdata%d-%d", q, own-guess), "/streams"+other+"?token="+tok, "data", nil)
+					if err != nil {
+						break
+					}
+					adata.WriteMessage(websocket.TextMessage, []byte(fmt.Sprintf("WSP/1.1 JOIN\r\nchannel: %d\r\nseq: 2\r\n\r\n", guess)))
+					_, b, err := adata.ReadMessage()
+					detail = fmt.Sprintf("JOIN of channel (own channel id - %d) answered %.15q", own-guess, b)
+					if err == nil && bytes.HasPrefix(b, []byte("WSP/1.1 200")) {
+						publishRTP(path, 4)
+						adata.SetReadDeadline(time.Now().Add(time.Second))
+						if _, fb, err := adata.ReadMessage(); err == nil && len(fb) > 0 && fb[0] == '$' {
+							got = true
+						}
+					}
+					adata.Close()
+				}
+				w.Probe("c11.wsp-foreign-channel-tried")
+				verdict("wsp-join-foreign-channel", user, "pull", path, got, detail)
+				actl.Close()
+				vcl.close()
 				w.Sleep(time.Second)
 			default: // attacker: derive tokens from identifiers the server discloses to an unauthenticated client
 				cl := sw.rtspConnect(fmt.Sprintf("att%d", q), 64<<10)
